@@ -1,5 +1,7 @@
 import SFV.Proofs.GaussNM
 import SFV.Proofs.Physical
+import SFV.Proofs.FockTensor
+import SFV.Proofs.Bridge
 
 /-!
 # C07 — every simulated state is physical and gates conserve what they must
@@ -50,6 +52,39 @@ theorem uncertainty_channel' {n : Type} [Fintype n] [DecidableEq n] (V Ω X Y : 
     (hY : (cplx Y + Complex.I • cplx (Ω - X * Ω * Xᵀ)).PosSemidef) (h : Uncertainty V Ω) :
     Uncertainty (X * V * Xᵀ + Y) Ω := uncertainty_channel V Ω X Y hY h
 
+/-- **squeezers, rotations and beamsplitters preserve the uncertainty relation** — the chain closed:
+the simulator's entrywise update refines `linMap rows` (C01), `linMap rows` is the matrix congruence
+`S V Sᵀ` (`covMatrix_linMap`), the rows are symplectic, and symplectic congruence preserves
+`V + iΩ ⪰ 0`.  All register sizes `n`, all target positions, all parameter values. -/
+theorem squeeze_uncertainty (n k : Nat) (hk : k < n) (c s ch sh : ℝ) (hcs : c * c + s * s = 1)
+    (hh : ch * ch - sh * sh = 1) (V : XP ℝ) (hxx : ∀ i j, V.xx i j = V.xx j i) (hpp : ∀ i j, V.pp i j = V.pp j i)
+    (h : Uncertainty (covMatrix n V) (omegaMatrix n)) :
+    Uncertainty (covMatrix n (linMap (squeezeRows k c s ch sh) V)) (omegaMatrix n) :=
+  linMap_uncertainty n _ (rows1_supported n k hk _ _ _ _) (squeezeRows_symplectic k c s ch sh hcs hh) V hxx hpp h
+
+theorem rotation_uncertainty (n k : Nat) (hk : k < n) (c s : ℝ) (hcs : c * c + s * s = 1)
+    (V : XP ℝ) (hxx : ∀ i j, V.xx i j = V.xx j i) (hpp : ∀ i j, V.pp i j = V.pp j i)
+    (h : Uncertainty (covMatrix n V) (omegaMatrix n)) :
+    Uncertainty (covMatrix n (linMap (rotRows k c s) V)) (omegaMatrix n) :=
+  linMap_uncertainty n _ (rows1_supported n k hk _ _ _ _) (rotRows_symplectic k c s hcs) V hxx hpp h
+
+theorem beamsplitter_uncertainty (n k l : Nat) (hk : k < n) (hl : l < n) (hkl : k ≠ l) (c s ct sn : ℝ)
+    (hcs : c * c + s * s = 1) (hts : ct * ct + sn * sn = 1)
+    (V : XP ℝ) (hxx : ∀ i j, V.xx i j = V.xx j i) (hpp : ∀ i j, V.pp i j = V.pp j i)
+    (h : Uncertainty (covMatrix n V) (omegaMatrix n)) :
+    Uncertainty (covMatrix n (linMap (bsRows k l c s ct sn) V)) (omegaMatrix n) :=
+  linMap_uncertainty n _ (bsRows_supported n k l hk hl c s ct sn) (bsRows_symplectic k l hkl c s ct sn hcs hts)
+    V hxx hpp h
+
+/-- **loss and thermal loss preserve the uncertainty relation**: with `T = q² ≤ 1` (witness `t² = 1 − q²`)
+and thermal noise `e = 2(1 − T)n̄ ≥ 0`, the specification `addNoise (linMap (lossRows k q) V) k (1 − q² + e)`
+(which `loss_refines`/`thermalLoss_refines` show the simulator computes) satisfies `V + iΩ ⪰ 0` -/
+theorem loss_uncertainty (n k : Nat) (q t e : ℝ) (ht : t * t = 1 - q * q) (he : 0 ≤ e) (V : XP ℝ)
+    (hxx : ∀ i j, V.xx i j = V.xx j i) (hpp : ∀ i j, V.pp i j = V.pp j i)
+    (hk : k < n) (h : Uncertainty (covMatrix n V) (omegaMatrix n)) :
+    Uncertainty (covMatrix n (addNoise (linMap (lossRows k q) V) k (1 - q * q + e))) (omegaMatrix n) :=
+  loss_spec_uncertainty n k q t e ht he V hxx hpp hk h
+
 /-- **passive gates conserve photon number**: beamsplitter (second moments and amplitudes) -/
 theorem beamsplitter_conserves {K : Type} [CommRing K] (st : GS K) (hI : NMInv st) (c s ct sn : K) (k l : Nat)
     (hkl : k ≠ l) (hcs : c * c + s * s = 1) (hts : ct * ct + sn * sn = 1) :
@@ -65,6 +100,13 @@ theorem rotation_conserves {K : Type} [CommRing K] (st : GS K) (c s : K) (k i : 
 theorem loss_scales {K : Type} [CommRing K] (st : GS K) (q : K) (k i : Nat) :
     ((loss st q k).N i i).re = (if i = k then q * (q * (st.N k k).re) else (st.N i i).re) :=
   loss_photon st q k i
+
+/-- **Fock density matrices stay Hermitian**: `ρ ↦ U ρ U†` on any mode of a register of any size
+preserves `ρ[j,i] = conj ρ[i,j]` (interleaved row/column axes), for every matrix `U` -/
+theorem fock_hermitian_preserved {K : Type} [CommSemiring K] (cj : K →+* K) (hinv : ∀ x, cj (cj x) = x)
+    (D : Nat) (mat : Nat → Nat → K) (m : Nat) (ρ : SFV.Fock.Tens K) (hρ : SFV.Fock.Herm cj ρ) :
+    SFV.Fock.Herm cj (SFV.Fock.applyAt1 D (fun v b => cj (mat v b)) (2 * m + 1) (SFV.Fock.applyAt1 D mat (2 * m) ρ)) :=
+  SFV.Fock.herm_conj1 cj hinv D mat m ρ hρ
 
 /-! ### non-vacuity: the one-mode vacuum satisfies the uncertainty relation's premises -/
 example : (3 / 5 : Rat) * (3 / 5) + (4 / 5) * (4 / 5) = 1 ∧ (5 / 4 : Rat) * (5 / 4) - (3 / 4) * (3 / 4) = 1 := by
